@@ -494,6 +494,21 @@ def _do_integral_scale(m, r, op, tags, rec, where):
             )
             return True
         return False
+    # an accepted assignment leaves every parameter inside its current bounds (the length scale reached through the integral
+    # scale, and for the TPL models the variance that follows it, are subject to the same bounds as direct assignments)
+    bnd = m.arg_bounds
+    for pname in ("len_scale", "var"):
+        val = float(getattr(m, pname))
+        if pname in bnd and not ref.in_bounds(val, list(bnd[pname])):
+            raise Violation(
+                f"{where}: integral_scale assignment accepted, but afterwards {pname} = {val!r} lies outside its bounds {list(bnd[pname])}",
+                dict(tags, kind="accepted_out_of_bounds_via_integral_scale"),
+            )
+    try:
+        m.check_arg_bounds()
+    except ValueError as e:
+        raise Violation(f"{where}: integral_scale assignment accepted, but the model fails its own bounds check afterwards: {e}",
+                        dict(tags, kind="accepted_out_of_bounds_via_integral_scale"))
     # reference: list semantics for the ratios, main value from the library after check
     main = v[0] if isinstance(v, list) else v
     res, _ = r.set_len_scale(v)
